@@ -46,7 +46,7 @@ UNITS = [("plane_set3", ["plane_set3", "plane_distanceTo"], "Plane3(p0,p1,p2) ha
          ("line_set", ["line_set"], "Line3(p0,p1) starts at p0, direction parallel to p1 - p0"),
          ("line_closestPoint", ["line_at", "line_closestPointTo"], "line(t) == pos + t dir; closestPointTo(point) lies on the line and the connecting segment is perpendicular to the direction (homogeneous in N = dir.dir)"),
          ("line_distanceTo", ["line_distanceTo", "line_closestPointTo", "length"], "distanceTo(point) == |closestPointTo(point) - point| (the reported distance is the length of the connecting segment)"),
-         ("closestVertex", ["closestVertex", "line_closestPointTo"], "closestVertex(v0,v1,v2,line) returns the first of the three vertices whose squared distance to its closest point on the line is minimal"),
+         ("closestVertex", ["closestVertex", "line_closestPointTo"], "closestVertex(v0,v1,v2,line) returns one of the three vertices, and no other vertex has a smaller squared distance to its closest point on the line (tie-breaking is not constrained)"),
          ("vecalgo", ["project", "orthogonal", "reflect", "length"], "project(s,t) parallel to s; orthogonal + project == t; orthogonal perpendicular to s up to the residual; reflect(s,t) == 2 project(t,s) - s")]
 
 
